@@ -1118,7 +1118,6 @@ example : (healthAnswer 10 (some exInfo) exNow).1 = 200 ∧ (healthAnswer 9 (som
 
 /-! ## ties: the facts the model rests on, regenerated from handler/http/server.go on every run (Gen/HttpW.lean) -/
 
-open Drand.Driver.HttpWD in
 /-- a waiter channel is `make(chan []byte, 1)` (capacity 1: `Chan.buf : Option Payload`) and `close(ch)` is deferred
 right after it (`closeStep` is the last step of every request that made one) -/
 theorem tie_waiter_channel : Gen.HttpW.waiterChanCap = 1 ∧ Gen.HttpW.waiterCloseDeferred = true := ⟨rfl, rfl⟩
